@@ -14,6 +14,7 @@ import (
 	"io"
 	"sort"
 	"strings"
+	"sync"
 	"time"
 
 	"go.temporal.io/server/api/adminservice/v1"
@@ -326,21 +327,25 @@ type vfViolation struct {
 }
 
 type vfRouteExec struct {
-	sc       *vfRouteScenario
-	sm       *shardManagerImpl
-	inbound  adminservice.AdminServiceServer
-	outbound adminservice.AdminServiceServer
-	stop     context.CancelFunc
-	now      int
-	src      []*vfSrc
-	tgt      []*vfTgt
-	returned []vfTaskRec
-	deliv    map[string][]vfDelivery
-	viol     []vfViolation
-	events   []string // human-readable observation log
-	faults   int
-	panics   []string
-	closing  bool
+	sc           *vfRouteScenario
+	sm           *shardManagerImpl
+	hmu          sync.Mutex
+	handoff      []chan RoutedMessage
+	handoffEnded map[chan RoutedMessage]bool
+	stranded     map[string]bool
+	inbound      adminservice.AdminServiceServer
+	outbound     adminservice.AdminServiceServer
+	stop         context.CancelFunc
+	now          int
+	src          []*vfSrc
+	tgt          []*vfTgt
+	returned     []vfTaskRec
+	deliv        map[string][]vfDelivery
+	viol         []vfViolation
+	events       []string // human-readable observation log
+	faults       int
+	panics       []string
+	closing      bool
 	// spawn starts a handler goroutine (plain go at the macro level, a managed goroutine at the micro level)
 	spawn func(name string, f func())
 	// changed is closed (and replaced) on every environment-visible event, for goroutines waiting on a condition
@@ -423,6 +428,7 @@ func vfNewRouteExec(sc *vfRouteScenario) *vfRouteExec {
 	if err := e.sm.Start(lifetime); err != nil {
 		panic(err)
 	}
+	smw := &vfSMRecorder{shardManagerImpl: e.sm, e: e}
 	for i := 1; i <= sc.NS; i++ {
 		e.src = append(e.src, &vfSrc{idx: i, curHigh: sc.InitHigh, script: sc.Scripts[i-1]})
 	}
@@ -437,12 +443,67 @@ func vfNewRouteExec(sc *vfRouteScenario) *vfRouteExec {
 	e.outbound = NewAdminServiceProxyServer("outbound", tgtClient, srcClient, AdminServiceOverrides{}, []string{"outbound"},
 		observer.ReportStreamValue, scc, LCMParameters{},
 		RoutingParameters{OverrideShardCount: int32(sc.NS), RoutingLocalShardCount: int32(sc.NT), DirectionLabel: "outbound"},
-		loggers, e.sm, lifetime)
+		loggers, smw, lifetime)
 	e.inbound = NewAdminServiceProxyServer("inbound", srcClient, tgtClient, AdminServiceOverrides{}, []string{"inbound"},
 		observer.ReportStreamValue, scc, LCMParameters{},
 		RoutingParameters{OverrideShardCount: int32(sc.NT), RoutingLocalShardCount: int32(sc.NS), DirectionLabel: "inbound"},
-		loggers, e.sm, lifetime)
+		loggers, smw, lifetime)
 	return e
+}
+
+// vfSMRecorder is the shard manager handed to the handlers: the real one, plus a record of every hand-off
+// channel a target sender ever registered (the early-ack oracle looks into the buffers of ended senders to
+// tell "accepted by a sender that then ended" from "vanished").
+type vfSMRecorder struct {
+	*shardManagerImpl
+	e *vfRouteExec
+}
+
+func (r *vfSMRecorder) SetRemoteSendChan(shardID history.ClusterShardID, ch chan RoutedMessage) {
+	r.e.hmu.Lock()
+	r.e.handoff = append(r.e.handoff, ch)
+	r.e.hmu.Unlock()
+	r.shardManagerImpl.SetRemoteSendChan(shardID, ch)
+}
+
+func (r *vfSMRecorder) RemoveRemoteSendChan(shardID history.ClusterShardID, ch chan RoutedMessage) {
+	r.shardManagerImpl.RemoveRemoteSendChan(shardID, ch)
+	r.e.hmu.Lock()
+	if r.e.handoffEnded == nil {
+		r.e.handoffEnded = map[chan RoutedMessage]bool{}
+	}
+	r.e.handoffEnded[ch] = true
+	r.e.hmu.Unlock()
+}
+
+// strandedInEndedHandoff drains the hand-off channels whose sender has deregistered them (it has ended)
+// and remembers the task tags found there.
+func (e *vfRouteExec) strandedInEndedHandoff(tag string) bool {
+	e.hmu.Lock()
+	defer e.hmu.Unlock()
+	if e.stranded == nil {
+		e.stranded = map[string]bool{}
+	}
+	for _, ch := range e.handoff {
+		if !e.handoffEnded[ch] {
+			continue
+		}
+	drain:
+		for {
+			select {
+			case m, ok := <-ch:
+				if !ok {
+					break drain
+				}
+				for _, task := range m.Resp.GetMessages().GetReplicationTasks() {
+					e.stranded[task.GetRawTaskInfo().GetRunId()] = true
+				}
+			default:
+				break drain
+			}
+		}
+	}
+	return e.stranded[tag]
 }
 
 func (e *vfRouteExec) logf(f string, a ...any) {
@@ -647,9 +708,9 @@ func (e *vfRouteExec) onSourceAck(s *vfSrc, inc int, a int64) {
 		}
 		if len(ds) == 0 {
 			for _, ts := range e.tgt[r.Tgt-1].incoming {
-				if ts.broken {
-					// the owner's stream ended at some point: the task was handed to (the queue of) a stream that never
-					// put it on the wire
+				if ts.broken && e.strandedInEndedHandoff(r.Tag) {
+					// the owner's stream ended at some point and the task sits in the hand-off queue of its ended sender:
+					// it was accepted by (the queue of) a stream that never put it on the wire
 					kind = "task-lost-in-handoff-to-ended-target-stream"
 				}
 			}
